@@ -135,9 +135,11 @@ Definition sumsum_perm (H1 K1 H2 K2 : nat) : list nat :=
   flat_map (fun h1 => flat_map (fun h2 => flat_map (fun k1 => map (fun k2 =>
      (h1 * K1 + k1) * (H2 * K2) + h2 * K2 + k2) (seq 0 K2)) (seq 0 K1)) (seq 0 H2)) (seq 0 H1).
 
-Definition min_of (s : list nat) : nat := match s with [] => 0 | x :: _ => x end.
+(* key of Python's `sorted(inputs, key=lambda l: tuple(scope(l)))` for pairwise disjoint scopes: the empty
+   scope sorts strictly first, otherwise by least variable; the sort is STABLE (ties keep the listed order) *)
+Definition min_of (s : list nat) : nat := match s with [] => 0 | x :: _ => Datatypes.S x end.
 Fixpoint insert_by (key : nat -> nat) (j : nat) (l : list nat) : list nat :=
-  match l with [] => [j] | x :: r => if key j <? key x then j :: l else x :: insert_by key j r end.
+  match l with [] => [j] | x :: r => if key j <=? key x then j :: l else x :: insert_by key j r end.
 Definition sort_by (key : nat -> nat) (l : list nat) : list nat := fold_right (insert_by key) [] l.
 
 Record mstate := { mnodes : list (layer * list nat); mtbl : list (option nat) }.
